@@ -4,12 +4,12 @@ use crate::support::*;
 use educe::Educe;
 use core::cmp::Ordering;
 #[derive(Educe)]
-#[repr(i64)]
-#[educe(Ord, PartialOrd, PartialEq, Eq)]
-pub enum T { B { #[educe(Ord(rank = 4i64))] data: A<0>, #[educe(Ord(rank = "3", method = "m_cmp"))] builder: A<1>, #[educe(Ord(rank = 0i64))] source: A<2> }, C = 3 }
+#[repr(i32)]
+#[educe(PartialOrd, PartialEq, Eq)]
+pub enum T { Zed(#[educe(PartialOrd(method(m_pcmp)))] A<0>, #[educe(PartialOrd(ignore = true))] A<1>, #[educe(PartialOrd(ignore = true))] A<0>) = 200 }
 
-pub fn values() -> Vec<T> { vec![T::B { data: A(0), builder: A(0), source: A(0) }, T::B { data: A(1), builder: A(0), source: A(0) }, T::B { data: A(0), builder: A(0), source: A(1) }, T::B { data: A(0), builder: A(1), source: A(1) }, T::B { data: A(7), builder: A(0), source: A(0) }, T::B { data: A(0), builder: A(1), source: A(0) }, T::B { data: A(0), builder: A(1), source: A(7) }, T::B { data: A(1), builder: A(0), source: A(7) }, T::B { data: A(1), builder: A(7), source: A(1) }, T::B { data: A(1), builder: A(1), source: A(0) }, T::B { data: A(7), builder: A(0), source: A(7) }, T::B { data: A(1), builder: A(1), source: A(7) }, T::B { data: A(7), builder: A(1), source: A(7) }, T::B { data: A(1), builder: A(7), source: A(7) }, T::B { data: A(7), builder: A(0), source: A(1) }, T::B { data: A(1), builder: A(7), source: A(0) }, T::B { data: A(1), builder: A(1), source: A(1) }, T::B { data: A(7), builder: A(1), source: A(0) }, T::C] }
-pub fn show(x: &T) -> String { #[allow(unused_variables)] match x { T::B { data: p0, builder: p1, source: p2 } => format!("B({},{},{})", sv(p0), sv(p1), sv(p2)), T::C => format!("C()") } }
-pub fn o_disc(x: &T) -> i128 { match x { T::B { data: _, builder: _, source: _ } => 0, T::C => 3 } }
-pub fn o_cmp(a: &T, b: &T) -> Ordering { match (a, b) { (T::B { data: a0, builder: a1, source: a2 }, T::B { data: b0, builder: b1, source: b2 }) => { let c = ::core::cmp::Ord::cmp(a2, b2); if c != Ordering::Equal { return c; } let c = m_cmp(a1, b1); if c != Ordering::Equal { return c; } let c = ::core::cmp::Ord::cmp(a0, b0); if c != Ordering::Equal { return c; } Ordering::Equal }, (T::C, T::C) => {  Ordering::Equal }, _ => o_disc(a).cmp(&o_disc(b)) } }
-pub fn run(out: &mut Out) { let vs = values(); for (i, a) in vs.iter().enumerate() { for (j, b) in vs.iter().enumerate() { let e = o_cmp(a, b); let g = ::core::cmp::Ord::cmp(a, b); out.check(g == e, "ord_27", "cmp", || format!("cmp({}, {}) = {:?} expected {:?}", show(a), show(b), g, e)); let g2 = ::core::cmp::PartialOrd::partial_cmp(a, b); out.check(g2 == Some(e), "ord_27", "partial_is_some_cmp", || format!("partial_cmp({}, {}) = {:?} expected Some({:?})", show(a), show(b), g2, e)); } } }
+pub fn values() -> Vec<T> { vec![T::Zed(A(0), A(0), A(0)), T::Zed(A(0), A(0), A(1)), T::Zed(A(0), A(0), A(7)), T::Zed(A(0), A(1), A(0)), T::Zed(A(0), A(1), A(1)), T::Zed(A(0), A(1), A(7)), T::Zed(A(0), A(7), A(0)), T::Zed(A(0), A(7), A(1)), T::Zed(A(0), A(7), A(7)), T::Zed(A(1), A(0), A(0)), T::Zed(A(1), A(0), A(1)), T::Zed(A(1), A(0), A(7)), T::Zed(A(1), A(1), A(0)), T::Zed(A(1), A(1), A(1)), T::Zed(A(1), A(1), A(7)), T::Zed(A(1), A(7), A(0)), T::Zed(A(1), A(7), A(1)), T::Zed(A(1), A(7), A(7)), T::Zed(A(7), A(0), A(0)), T::Zed(A(7), A(0), A(1)), T::Zed(A(7), A(0), A(7)), T::Zed(A(7), A(1), A(0)), T::Zed(A(7), A(1), A(1)), T::Zed(A(7), A(1), A(7)), T::Zed(A(7), A(7), A(0)), T::Zed(A(7), A(7), A(1)), T::Zed(A(7), A(7), A(7))] }
+pub fn show(x: &T) -> String { #[allow(unused_variables)] match x { T::Zed(p0, p1, p2) => format!("Zed({},{},{})", sv(p0), sv(p1), sv(p2)) } }
+pub fn o_disc(x: &T) -> i128 { match x { T::Zed(_, _, _) => 200 } }
+pub fn o_pcmp(a: &T, b: &T) -> Option<Ordering> { match (a, b) { (T::Zed(a0, a1, a2), T::Zed(b0, b1, b2)) => { match m_pcmp(a0, b0) { Some(Ordering::Equal) => (), x => return x } Some(Ordering::Equal) } } }
+pub fn run(out: &mut Out) { let vs = values(); for (i, a) in vs.iter().enumerate() { for (j, b) in vs.iter().enumerate() { let e = o_pcmp(a, b); let g = ::core::cmp::PartialOrd::partial_cmp(a, b); out.check(g == e, "ord_27", "partial_cmp", || format!("partial_cmp({}, {}) = {:?} expected {:?}", show(a), show(b), g, e)); } } }
